@@ -32,6 +32,7 @@ ASSUMPTIONS = [
     "reference oracles of harness/oracles.py (brute force and recursion agree on every case where both run)",
 ]
 BUDGET = {"quick": {"random": 1500}, "thorough": {"random": 25000}}
+FUZZ = {"thorough": {"runs": 20000, "max_time": 900}}
 
 
 def strategy(tier):
